@@ -801,3 +801,20 @@ m('C17', 'JSON reader: one-element complex arrays become scalars', IO,
 m('C08', 'gradient: volumes reshaped in C order', SIMS,
   "volumes=cell_volumes.reshape(shape, order='F'),", "volumes=cell_volumes.reshape(shape),",
   'C08.V4.scatter')
+
+# ------------------------------------------------ defects F10-F12 back
+m('C20', 'interpolate: pass-through decided by sizes (defect F10)', TIME,
+  "        if not np.array_equal(self.freq_coarse, self.freq_required):",
+  "        if self.freq_coarse.size != self.freq_required.size:", 'C20.F3.passthrough')
+n('C20', 'interpolate: pass-through written with the positive test first', TIME,
+  "        if not np.array_equal(self.freq_coarse, self.freq_required):",
+  "        if not np.all(self.freq_coarse == self.freq_required):")
+m('C19', 'layered: raw receiver coordinates (defect F11)', MP,
+  "            'rec': rec.coordinates_abs(src),", "            'rec': rec.coordinates,",
+  'C19.L3.absolute')
+m('C19', '_get_points: relative receivers not resolved (defect F11)', MP,
+  "    if getattr(rec, 'relative', False):\n        p1 = rec.center_abs(src)[:2]\n", "",
+  'C19.L4.points')
+m('C17', 'misfit cached as DataArray and returned via .data (defect F12)', SIMS,
+  "            self._misfit = float(misfit.data)\n\n        return self._misfit\n",
+  "            self._misfit = misfit\n\n        return self._misfit.data\n", 'C17.K2.plain')
